@@ -166,6 +166,7 @@ def gen_multi_case(rng):
     for i, s in enumerate(starts):
         ranges.append({'marker': rng.choice(['>', '>=']), 'start': s, 'leaf': gen_leaf(rng)})
     r = rng.choice([s + 0.25 for s in starts] + [starts[-1] + 1.25] + [s for s in starts if s > 0])
+    if rng.random() < 0.5: rng.shuffle(ranges)          # the ranges may be listed in any order: value and derivatives come from the same selected range
     return {'multi': ranges, 'r': r}
 
 def py_multi(case):
@@ -289,6 +290,16 @@ def abs_eval(t, r):
     except Exception:
         return 0.0
 
+def max_node_abs(t, r):
+    """the largest |value| any sub-expression takes at r (a zero factor hides the size of what it multiplies)"""
+    try:
+        if t['op'] == 'leaf': return abs(py_leaf(t)(r))
+        if t['op'] == 'trans': return max_node_abs(t['a'], r + t['X'])
+        here = abs(py_build(t)(r))
+        return max(here, max_node_abs(t['a'], r), max_node_abs(t['b'], r))
+    except Exception:
+        return float('inf')
+
 def richardson(f, x, h=1e-3):
     """O(h^4) central difference with one Richardson step"""
     d1 = (f(x + h) - f(x - h)) / (2 * h)
@@ -318,6 +329,7 @@ def oracle(case):
         return []          # the statement is about separations away from range boundaries
     try:
         if not (abs(f(r)) < 1e8): return []      # outside the well-conditioned range the oracle can judge
+        if 'tree' in case and not case.get('smooth_at_r') and not (max_node_abs(case['tree'], r) < 1e8): return []   # ... also when a zero factor hides it
     except Exception:
         return []
     for (nm, base, offered) in checks:
